@@ -1237,6 +1237,72 @@ func appendFilter(streamDict Dict, name Name, parms Dict) {
 	}
 }
 
+// prependFilters records the filters applied by [Writer.OpenStream] in a stream
+// dictionary.  The data written to the stream is already encoded the way the
+// dictionary says, and the filters of OpenStream are applied on top of that:
+// a reader has to undo them first, so they go in front of the existing
+// /Filter entries (and their parameters in front of /DecodeParms) — except
+// that a leading Crypt filter of the dictionary stays first (PDF 32000-1:2008,
+// 7.4.10).  The arguments are in reading order.
+func prependFilters(streamDict Dict, names []Name, parms []Dict) {
+	if len(names) == 0 {
+		return
+	}
+
+	// the existing chain, with one parameter slot per filter
+	var oldF, oldP Array
+	switch f := streamDict["Filter"].(type) {
+	case Name:
+		oldF = Array{f}
+		if p, ok := streamDict["DecodeParms"].(Dict); ok {
+			oldP = Array{p}
+		}
+	case Array:
+		oldF = f
+		oldP, _ = streamDict["DecodeParms"].(Array)
+	}
+	for len(oldP) < len(oldF) {
+		oldP = append(oldP, nil)
+	}
+	oldP = oldP[:len(oldF)]
+
+	k := 0
+	if len(oldF) > 0 && oldF[0] == Name("Crypt") {
+		k = 1
+	}
+	allF := append(Array{}, oldF[:k]...)
+	allP := append(Array{}, oldP[:k]...)
+	for i, name := range names {
+		allF = append(allF, name)
+		if len(parms[i]) > 0 {
+			allP = append(allP, parms[i])
+		} else {
+			allP = append(allP, nil)
+		}
+	}
+	allF = append(allF, oldF[k:]...)
+	allP = append(allP, oldP[k:]...)
+
+	needsParms := false
+	for _, p := range allP {
+		if d, _ := p.(Dict); len(d) > 0 {
+			needsParms = true
+		}
+	}
+	delete(streamDict, "DecodeParms")
+	if len(allF) == 1 {
+		streamDict["Filter"] = allF[0]
+		if needsParms {
+			streamDict["DecodeParms"] = allP[0]
+		}
+	} else {
+		streamDict["Filter"] = allF
+		if needsParms {
+			streamDict["DecodeParms"] = allP
+		}
+	}
+}
+
 // asMalformedFilter reclassifies the result of a Filter.Decode call.
 // Any non-[MalformedFileError] error returned by the filter's
 // construction, or by a subsequent Read from the returned reader, is
